@@ -128,11 +128,30 @@ def compile_and_record(ctx, src, label, extra_q=(), subdir="props", timeout=900)
     return True
 
 
+def coqchk(ctx, rel, timeout=1500):
+    """thorough tier: re-check the compiled property file and everything it depends on with the
+    independent checker; records one obligation and the axiom summary coqchk prints"""
+    mod = "InToto." + rel[:-2].replace("/", ".")
+    cmd = ["timeout", str(timeout), "coqchk", "-o", "-silent"] + COQ_Q + [mod]
+    p = subprocess.run(cmd, capture_output=True, text=True, cwd=COQ)
+    out = p.stdout + p.stderr
+    m = re.search(r"\* Axioms:(.*?)\n\s*\n", out, re.S)
+    axioms = " ".join(m.group(1).split()) if m else "?"
+    ctx.notes.append("coqchk -o %s: axioms %s" % (mod, axioms))
+    flags_clean = all(re.search(pat + r"\s*<none>", out) for pat in
+                      (r"type-in-type:", r"unsafe \(co\)fixpoints:", r"positivity is assumed:"))
+    ctx.oblige("coqchk:" + rel, p.returncode == 0 and axioms == "<none>" and flags_clean, out[-600:])
+    return p.returncode == 0
+
+
 def check_props(ctx, files):
-    """Recompile the property statement files (so the run itself witnesses them)."""
+    """Recompile the property statement files (so the run itself witnesses them);
+    in the thorough tier also run coqchk on the installed .vo of each."""
     ok = True
     for rel in files:
         ok = compile_and_record(ctx, os.path.join(COQ, rel), rel) and ok
+        if ctx.thorough() and ok and os.environ.get("VERIF_NO_COQCHK") != "1":
+            ok = coqchk(ctx, rel) and ok
     return ok
 
 
